@@ -237,7 +237,7 @@ class Pipeline:
                         continue
                     seen.add(n)
                     if d["t"] == "message":
-                        names = ["New%sWriter" % n, "Parse%s" % n, "Open%s" % n, "Open%sErr" % n, "New%s" % n]
+                        names = ["New%sWriter" % n, "New%sWriterBuffer" % n, "Parse%s" % n, "Open%s" % n, "Open%sErr" % n, "New%s" % n]
                     elif d["t"] == "struct":
                         names = ["Decode%s" % n, "Encode%sTo" % n, "Open%s" % n]
                     elif d["t"] == "enum":
@@ -251,7 +251,7 @@ class Pipeline:
         pid0 = rec["pkgs"][0]["id"]
         for m in rec["sem"]["msgs"]:
             if m["msg"] not in declared:
-                for x in ("New%sWriter", "Parse%s", "Open%s"):
+                for x in ("New%sWriter", "New%sWriterBuffer", "Parse%s", "Open%s"):
                     lines.append('\t\t"%s.%s": %s.%s,' % (pid0, x % m["msg"], pid0, x % m["msg"]))
         for e in rec["sem"]["enums"]:
             for v in e["values"]:
